@@ -182,7 +182,7 @@ M("M_C08_d", ["C08"], "cotengra/hyperoptimizers/hyper.py",
 M("M_C08_e", ["C08"], "cotengra/hyperoptimizers/hyper.py",
   "        tree.simulated_anneal_(**self.opts)\n        trial.update(tree.contract_stats())",
   "        tree.simulated_anneal_(**self.opts)\n        trial.update(tree.contract_stats() if not tree.sliced_inds else {})",
-  "annealing trial with slicing keeps the pre-annealing figures", ["tests/test_optimizers.py"])
+  "harmless since the limit-objective fix: a trial without recorded figures gets them from its (final) tree when it is scored", ["tests/test_optimizers.py"], harmless=True)
 M("M_C08_f", ["C08"], "cotengra/hyperoptimizers/hyper.py",
   "            if trial[\"score\"] < self.best[\"score\"]:\n                self.trials_since_best = 0",
   "            if trial[\"score\"] < self.best[\"score\"] or (self.trials_since_best > 5 and \"tree\" in trial):\n                self.trials_since_best = 0",
@@ -200,7 +200,7 @@ M("M_C13_a", ["C13"], "cotengra/interface.py",
 M("M_C13_b", ["C13"], "cotengra/interface.py",
   "    kwargs = frozenset(kwargs.items())\n    key = (",
   "    kwargs = frozenset(k for k, v in kwargs.items() if v)\n    key = (",
-  "harmless for the property: only implementation='cotengra'/'autoray' share an expression, both compute the right value", ["tests/test_interface.py"], harmless=True)
+  "cache key only records which kwargs are truthy: a user supplied implementation / via pair shares the expression of implementation='cotengra'", ["tests/test_interface.py"])
 M("M_C13_c", ["C13"], "cotengra/interface.py",
   "    key = (inputs, output, tuple(size_dict.items()), optimize, kwargs)\n",
   "    key = (inputs, output, tuple(size_dict), optimize, kwargs)\n",
